@@ -15,6 +15,24 @@ inductive Call where
   | sort (vs : Nat)
 deriving DecidableEq, Repr, Inhabited
 
+/-- a `get_or_cache_candidates` future that has been polled and is not finished: it either sent the request itself
+    (`gateOpen`: the provider has answered, the future has not been polled since) or waits for the request of another future
+    (`notified`: that request has ended - answered or abandoned - and the future has not been polled since) -/
+inductive Slot where
+  | owner (n : Nat) (gateOpen : Bool)
+  | waiter (n : Nat) (notified : Bool)
+deriving DecidableEq, Repr, Inhabited
+
+def Slot.isOwnerOf (n : Nat) : Slot → Bool
+  | .owner m _ => m == n
+  | _ => false
+
+/-- the request for `n` has ended: everybody waiting for it is notified -/
+def notify (n : Nat) (slots : List (Nat × Slot)) : List (Nat × Slot) :=
+  slots.map fun p => match p.2 with
+    | .waiter m false => if m == n then (p.1, .waiter m true) else p
+    | _ => p
+
 structure St where
   fetchedCands : List Nat := []     -- names whose candidates are cached
   fetchedDeps : List Nat := []      -- solvables whose dependencies are cached
@@ -24,8 +42,12 @@ structure St where
   sorted : List Nat := []           -- version sets with cached sorted list
   sortedUnion : List Nat := []      -- unions with cached sorted list
   inflightDeps : List Nat := []     -- solvables whose `get_dependencies` request has been sent and not yet answered
+  slots : List (Nat × Slot) := []   -- the unfinished `get_or_cache_candidates` futures, by the caller's handle
   log : List Call := []
 deriving Repr, Inhabited
+
+/-- the in-flight marker of package `n` is set exactly while a future that sent the request for it is alive -/
+def St.marker (st : St) (n : Nat) : Bool := st.slots.any fun p => p.2.isOwnerOf n
 
 inductive Op where
   | candidates (n : Nat)
@@ -38,6 +60,11 @@ inductive Op where
   | depsStart (s : Nat)
   | depsDrop (s : Nat)
   | depsFinish (s : Nat)
+  -- `get_or_cache_candidates` futures under the caller's handle `k`: first poll, drop, the provider answers, another poll
+  | candStart (n k : Nat)
+  | candDrop (k : Nat)
+  | candOpen (n : Nat)
+  | candPoll (k : Nat)
 deriving Repr, Inhabited
 
 inductive Ans where
@@ -53,6 +80,17 @@ def fetchCands (U : Universe) (st : St) (n : Nat) : St :=
   else
     let h := match U.pkg? n with | some p => hintedBy p | none => []
     { st with fetchedCands := n :: st.fetchedCands, hinted := st.hinted ++ h, log := st.log ++ [.cands n] }
+
+/-- the provider's answer is stored (the request itself was logged when it was sent) -/
+def storeCands (U : Universe) (st : St) (n : Nat) : St :=
+  let h := match U.pkg? n with | some p => hintedBy p | none => []
+  { st with fetchedCands := n :: st.fetchedCands, hinted := st.hinted ++ h }
+
+/-- a future for `n` looks at the cache state (its first poll, or a poll after the request it waited for was abandoned):
+    an in-flight request is waited for, otherwise the request is sent -/
+def candEnter (st : St) (n k : Nat) (others : List (Nat × Slot)) : St × Ans :=
+  if st.marker n then ({ st with slots := others ++ [(k, .waiter n false)] }, .word "pending")
+  else ({ st with slots := others ++ [(k, .owner n false)], log := st.log ++ [.cands n] }, .word "pending")
 
 def fetchMatching (U : Universe) (st : St) (vs : Nat) : St :=
   if st.matching.contains vs then st
@@ -106,6 +144,31 @@ def step (U : Universe) (peek : Bool) (st : St) : Op → St × Ans
     if st.inflightDeps.contains s then
       ({ st with inflightDeps := st.inflightDeps.erase s, fetchedDeps := s :: st.fetchedDeps }, .word "finished")
     else (st, .word "none")
+  | .candStart n k =>
+    if (st.slots.lookup k).isSome then (st, .word "busy")
+    else if st.fetchedCands.contains n then (st, .word "ready")
+    else candEnter st n k st.slots
+  -- an abandoned request takes its marker along and notifies its waiters; an abandoned waiter changes nothing else
+  | .candDrop k =>
+    match st.slots.lookup k with
+    | none => (st, .word "none")
+    | some (.owner n _) => ({ st with slots := notify n (st.slots.filter (·.1 != k)) }, .word "dropped")
+    | some (.waiter _ _) => ({ st with slots := st.slots.filter (·.1 != k) }, .word "dropped")
+  | .candOpen n =>
+    ({ st with slots := st.slots.map fun p => match p.2 with
+        | .owner m false => if m == n then (p.1, .owner m true) else p
+        | _ => p }, .word "ok")
+  | .candPoll k =>
+    match st.slots.lookup k with
+    | none => (st, .word "none")
+    | some (.owner _ false) => (st, .word "pending")
+    | some (.owner n true) =>
+      ({ storeCands U st n with slots := notify n (st.slots.filter (·.1 != k)) }, .word "ready")
+    | some (.waiter _ false) => (st, .word "pending")
+    | some (.waiter n true) =>
+      let others := st.slots.filter (·.1 != k)
+      if st.fetchedCands.contains n then ({ st with slots := others }, .word "ready")
+      else candEnter { st with slots := others } n k others
 
 def run (U : Universe) (peek : Bool) (st : St) (ops : List Op) : St × List Ans :=
   ops.foldl (fun (acc : St × List Ans) op => let (st', a) := step U peek acc.1 op; (st', acc.2 ++ [a])) (st, [])
